@@ -318,6 +318,8 @@ def build_graph(r, spec, namer, nfuncs, stages, entries_per_stage=(1, 2), shape=
         for _ in range(r.randint(*accesses_per_global)):
             globs, form, e, s = r.choice(acc)
             cands = holders
+            if not cands:
+                continue
             if any(spec.global_by_name(x).kind == "workgroup" for x in globs):
                 cands = [h for h in ents if h.stage == "compute"]
                 if not cands:
